@@ -14,9 +14,9 @@ import (
 	"github.com/brimdata/super/zson"
 )
 
-// tokLit maps a key token of the specs to ZSON.  The missing key is written
-// as the value the key expression yields for an absent field, so that every
-// input row has k in column 0 (see the type-context finding in main.go).
+// tokLit maps a key token of the specs to ZSON.  The missing key is either a
+// really absent field or (half of the rows) the value the key expression
+// yields for an absent field.
 var tokLit = map[string]string{
 	"I1": "1", "U1": "1(uint64)", "F1": "1.", "I2": "2", "I3": "3", "S": `"a"`,
 	"MISS": `error("missing")`, "NI": "null(int64)", "NS": "null(string)",
@@ -85,16 +85,17 @@ type inRow struct {
 	ID  int    `json:"id"`
 	Key key    `json:"key"`
 	Leg int    `json:"leg"`
-	V   string `json:"v"` // "" absent | "null(int64)" | int literal
-	B   string `json:"b"` // "" absent | "null(bool)" | true | false
+	Abs bool   `json:"abs,omitempty"` // MISS only: the key field is absent (else k:error("missing"))
+	V   string `json:"v"`             // "" absent | "null(int64)" | int literal
+	B   string `json:"b"`             // "" absent | "null(bool)" | true | false
 	W   bool   `json:"w"`
 	F   string `json:"f"` // int literal or string literal (never absent: see fuse finding)
 }
 
 func (r inRow) zson(withSec bool) string {
 	var f []string
-	if lit := tokLit[r.Key.P]; lit != "" {
-		f = append(f, "k:"+lit)
+	if !(r.Key.P == "MISS" && r.Abs) {
+		f = append(f, "k:"+tokLit[r.Key.P])
 	}
 	if withSec {
 		f = append(f, fmt.Sprintf("j:%d", r.Key.S))
@@ -118,7 +119,7 @@ func genRows(keys []key, seed int64) []inRow {
 	rng := rand.New(rand.NewSource(seed))
 	rows := make([]inRow, len(keys))
 	for i, k := range keys {
-		r := inRow{ID: i + 1, Key: k, Leg: i % 2}
+		r := inRow{ID: i + 1, Key: k, Leg: i % 2, Abs: rng.Intn(2) == 0}
 		switch x := rng.Intn(9); {
 		case x == 0:
 			r.V = ""
